@@ -24,7 +24,8 @@ SHARDS = {"quick": 16, "thorough": 16}
 FLOOR = {"quick": 100, "thorough": 2000}
 REQUIRED_COUNTERS = ["import_statements_scanned", "files_scanned", "runtime_files_compared", "import_audit_events",
                      "modules_imported_generator_blocked", "nested_imports_scanned", "typed_map_wrappers_exercised", "stale_core_scenarios",
-                     "relative_imports_resolved", "runtime_calls_generator_blocked"]
+                     "relative_imports_resolved", "runtime_calls_generator_blocked",
+                     "foreign_host_encoding_scenarios"]
 RULE = ("C01's document grammar biased towards rarely emitted templates (typed/untyped additionalProperties wrappers, unions, "
         "enums) x 9 layouts; case = (document, layout); non-trivial = accepted, >=1 operation, >=2 schemas joined by a reference")
 ASSUMPTIONS = ["standard library = sys.stdlib_module_names of the probe interpreter (3.12)"]
@@ -230,9 +231,47 @@ def stale_core_scenario(ctx: Ctx, n: int) -> None:
                 rec.violation(f"runtime:stale_core_not_refreshed:{r}", ["always", "stale_core"], case, f"{dst} differs from the shipped {r} after regeneration")
 
 
+def foreign_host_encoding_scenario(ctx: Ctx) -> None:
+    """Generation in a fresh process that behaves like a host whose default text encoding is ISO-8859-1: the runtime files
+    must still arrive byte for byte (reader and writer have to agree on how they treat the bytes)."""
+    import os
+    import subprocess
+
+    rec = ctx.rec
+    root = ctx.scratch.new("hostenc")
+    d = specgen.generate(ctx.rng, prof={"schemas": (2, 3), "ops": (1, 2)})
+    spec = genrun.write_spec(d.doc, root / "spec")
+    for pkg, core in (("client_l1", None), ("acme.client_l1", "acme.shared_l1.core")):
+        args = {"spec": str(spec), "root": str(root), "pkg": pkg, "core": core, "force": True, "default_text_encoding": "iso-8859-1"}
+        env = dict(os.environ, PYTHONPATH=str(common.VERIF_ROOT), PYTHONHASHSEED="0")
+        try:
+            r = subprocess.run([common.PY, "-m", "vmon.gen_cli", json.dumps(args)], capture_output=True, text=True, timeout=300, env=env)
+            res = json.loads(r.stdout.strip().splitlines()[-1])
+        except Exception as e:  # noqa
+            rec.count("host_encoding_runs_failed_diagnostic")
+            rec.seen("host_encoding_errors", repr(e)[:120])
+            continue
+        case = {"scenario": "foreign_host_encoding", "encoding": "iso-8859-1", "layout": [pkg, core], "doc": d.doc}
+        rec.case(case, nontrivial=True)
+        rec.count("foreign_host_encoding_scenarios")
+        if not res.get("ok"):
+            rec.count("generations_rejected")
+            rec.seen("host_encoding_errors", str(res.get("error"))[:120])
+            continue
+        core_dir = root.joinpath(*(core or pkg + ".core").split("."))
+        for rf in RUNTIME:
+            rec.count("runtime_files_compared")
+            src, dst = common.REPO_SRC / "pyopenapi_gen" / "core" / rf, core_dir / rf
+            if not dst.exists() or dst.read_bytes() != src.read_bytes():
+                rec.violation(f"runtime:bytes_differ_on_non_utf8_host:{rf}", ["always", "foreign_host_encoding"], case,
+                              f"{dst} is not byte-identical to the shipped {rf} when the default text encoding is ISO-8859-1")
+
+
 def run_shard(ctx: Ctx) -> None:
     common.use_repo()
     stale_core_scenario(ctx, ctx.shard)
+    if ctx.shard < 2:
+        foreign_host_encoding_scenario(ctx)
     total = 30 if ctx.quick else 700
     bs = 10
     for b in range(0, total, bs):
@@ -247,6 +286,9 @@ def run_shard(ctx: Ctx) -> None:
 def replay(ctx: Ctx, file: dict) -> None:
     common.use_repo()
     c = file["case"]
+    if c.get("scenario") == "foreign_host_encoding":
+        foreign_host_encoding_scenario(ctx)
+        return
     if c.get("scenario") == "stale_core":
         stale_core_scenario(ctx, 0)
         return
